@@ -117,17 +117,22 @@ ForeignRefused(i, what) ==
     /\ UNCHANGED <<pool, ghost>>
 
 (* k = i - j *)
-Sub(i, j, k) ==
+(* free: the call runs with free arithmetics enabled.  physt then evaluates a - b as a + b * (-1); the factor is a Python *)
+(* int, so the result is as wide as a product with a Python int is (no information is lost, reported = actual dtype).    *)
+MinusF(a, b, free) ==
+    IF free THEN [Minus(a, b) EXCEPT !.dtype = Promote(a.dtype, Promote(b.dtype, "i8"))] ELSE Minus(a, b)
+
+Sub(i, j, k, free) ==
     /\ Live /\ On("Sub") /\ Has(i) /\ Has(j) /\ Free(k)
     /\ SameBins(pool[i], pool[j]) /\ CanMinus(pool[i], pool[j])
-    /\ pool' = [pool EXCEPT ![k] = Minus(pool[i], pool[j])]
+    /\ pool' = [pool EXCEPT ![k] = MinusF(pool[i], pool[j], free)]
     /\ ghost' = [ghost EXCEPT ![k] = Untracked]
 
 (* i -= j *)
-ISub(i, j) ==
+ISub(i, j, free) ==
     /\ Live /\ On("ISub") /\ Has(i) /\ Has(j) /\ i # j
     /\ SameBins(pool[i], pool[j]) /\ CanMinus(pool[i], pool[j])
-    /\ pool' = [pool EXCEPT ![i] = [Minus(pool[i], pool[j]) EXCEPT !.name = pool[i].name]]   \* in place: metadata kept
+    /\ pool' = [pool EXCEPT ![i] = [MinusF(pool[i], pool[j], free) EXCEPT !.name = pool[i].name]]   \* in place: metadata kept
     /\ ghost' = [ghost EXCEPT ![i] = Untracked]
 
 (* i -= j where some content would become negative: refused, nothing changes *)
@@ -342,8 +347,10 @@ Drop(k) ==
 Next ==
     \/ \E k \in Ids, s \in Seeds : New(k, s)
     \/ \E i, k \in Ids : Copy(i, k) \/ CopyEmpty(i, k)
-    \/ \E i, j, k \in Ids : Add(i, j, k) \/ Sub(i, j, k)
-    \/ \E i, j \in Ids : IAdd(i, j) \/ ISub(i, j) \/ AddRefused(i, j) \/ IAddRefused(i, j) \/ ISubRefused(i, j)
+    \/ \E i, j, k \in Ids : Add(i, j, k)
+    \/ \E i, j, k \in Ids, free \in BOOLEAN : Sub(i, j, k, free)
+    \/ \E i, j \in Ids, free \in BOOLEAN : ISub(i, j, free)
+    \/ \E i, j \in Ids : IAdd(i, j) \/ AddRefused(i, j) \/ IAddRefused(i, j) \/ ISubRefused(i, j)
     \/ \E i \in Ids, what \in {"add_array", "add_scalar", "iadd_array", "mul_array", "imul_array", "mul_hist", "imul_hist",
                  "div_hist", "idiv_hist", "div_array", "rdiv_scalar", "sub_array"} : ForeignRefused(i, what)
     \/ \E i, k \in Ids, c \in Scalars, r \in BOOLEAN : Mul(i, c, k, r)
